@@ -3,6 +3,7 @@ package funcs
 import (
 	"fmt"
 	"math/rand"
+	"regexp"
 	"strings"
 )
 
@@ -32,6 +33,10 @@ type Class struct {
 	LastPayload  int     // apply: the payload that expression denotes
 	ErrTy        string  // "" = the predeclared error; else a key of ErrTypes used in place of `error` …
 	ErrAt        string  // … "result": last result of the (first) stage function; "arg": the error VALUE given to join / toerror
+	Twin         bool    // a SECOND call site of the same derive function: same types, parameter names in another order
+	Variadic     string  // "" or the Go element type of a variadic last parameter (of stage VarStage for compose)
+	VarStage     int     // compose: which stage is variadic
+	siteTag      string  // set on the copy that generates the second call site
 	Split        bool    // bind: `fn, e := deriveFmap(f, g)` observed before `deriveJoin(fn, e)` (else the nested call)
 }
 
@@ -74,6 +79,9 @@ func wireInts(head string, ns []int) string {
 
 // SigWire is the description of the class in an op line (after the cfg part).
 func (c *Class) SigWire() string {
+	if c.Variadic != "" {
+		return c.sigWire() + fmt.Sprintf(" (variadic %d)", c.VarStage)
+	}
 	if c.ErrTy != "" {
 		return c.sigWire() + " (errty " + c.ErrTy + " " + c.ErrAt + ")"
 	}
@@ -143,6 +151,12 @@ func (c *Class) sigWire() string {
 
 // GoSig is a readable rendering of the class (the derive call and the signature it is applied to).
 func (c *Class) GoSig() string {
+	if c.Variadic != "" {
+		return c.goSig() + fmt.Sprintf(" with a variadic last parameter ...%s (function %d)", c.Variadic, c.VarStage)
+	}
+	if c.Twin {
+		return c.goSig() + " and a second call site with the parameter names reversed"
+	}
 	if c.ErrTy != "" {
 		where := "as the last result of the first function"
 		if c.ErrAt == "arg" {
@@ -298,8 +312,112 @@ func assign(vars []string, call string) string {
 
 const fTag = "5"
 
+// tag is the tag of the instrumented function(s) of this call site (results are computed from it).
+func (c *Class) tag(dflt string) string {
+	if c.siteTag != "" {
+		return c.siteTag
+	}
+	return dflt
+}
+
+func (c *Class) stageTag(i int) string {
+	if c.siteTag != "" {
+		return fmt.Sprint(i + 10)
+	}
+	return fmt.Sprint(i)
+}
+
+// twinCopy is the class of the second call site: same types, the names of every parameter list reversed.
+func (c *Class) twinCopy() *Class {
+	d := *c
+	rev := func(ps []Param) []Param {
+		out := make([]Param, len(ps))
+		for i, p := range ps {
+			out[i] = Param{ps[len(ps)-1-i].Name, p.T}
+		}
+		return out
+	}
+	d.Ps, d.Inner = rev(c.Ps), rev(c.Inner)
+	d.Twin, d.siteTag = false, "6"
+	return &d
+}
+
+var (
+	reF      = regexp.MustCompile(`\bF\b`)
+	reFC     = regexp.MustCompile(`\bFC\b`)
+	reStage  = regexp.MustCompile(`\bF(\d)\b`)
+	reRunDef = regexp.MustCompile(`func Run\(`)
+)
+
 // Source returns the text of the package's own file (the support file is separate).
 func (c *Class) Source() string {
+	if c.Variadic != "" {
+		return c.variadicSource()
+	}
+	if !c.Twin {
+		return c.source()
+	}
+	one := reRunDef.ReplaceAllString(c.source(), "func Run1(")
+	two := c.twinCopy().source()
+	two = two[strings.Index(two, "\n\n")+2:] // without the package clause
+	two = reRunDef.ReplaceAllString(two, "func Run2(")
+	two = reF.ReplaceAllString(two, "F2")
+	two = reFC.ReplaceAllString(two, "FC2")
+	two = reStage.ReplaceAllString(two, "G$1")
+	two = strings.NewReplacer("fImpl", "f2Impl", "fcImpl", "fc2Impl").Replace(two)
+	return one + "\n// ---- second call site of the same derive function\n\n" + two +
+		"\n// Run dispatches on the call site named by the op line.\nfunc Run(op string, in map[string][]int) string {\n\tif len(in[\"site\"]) == 1 && in[\"site\"][0] == 2 {\n\t\treturn Run2(op, in)\n\t}\n\treturn Run1(op, in)\n}\n"
+}
+
+// variadicSource: a variadic signature must be refused (or served correctly); the package only has to
+// contain the call.
+func (c *Class) variadicSource() string {
+	var sb strings.Builder
+	fmt.Fprintf(&sb, "package %s\n\n", c.Pkg)
+	vp := func(ts []int) string {
+		s := goParams(unnamed(ts))
+		if s != "" {
+			s += ", "
+		}
+		return s + "..." + c.Variadic
+	}
+	call := ""
+	switch c.Kind {
+	case "compose":
+		in := c.Ins
+		var names []string
+		for i, outs := range c.Stages {
+			ps := goParams(unnamed(in))
+			if i == c.VarStage {
+				ps = vp(in)
+			}
+			fmt.Fprintf(&sb, "var F%d func(%s)%s\n", i, ps, goResults(outs, "error"))
+			names = append(names, fmt.Sprintf("F%d", i))
+			in = outs
+		}
+		call = "deriveCompose(" + strings.Join(names, ", ") + ")"
+	case "uncurry":
+		fmt.Fprintf(&sb, "var FC func(%s) func(%s)%s\n", goParams(c.Outer), vp(ptys(c.Inner)), goResults(c.Rs, ""))
+		call = "deriveUncurry(FC)"
+	case "toerror":
+		fmt.Fprintf(&sb, "var F func(%s)%s\n", vp(ptys(c.Ps)), goResults(c.Rs, "bool"))
+		call = "deriveToError(errOf(9, 0), F)"
+	default:
+		fmt.Fprintf(&sb, "var F func(%s)%s\n", vp(ptys(c.Ps)), goResults(c.Rs, ""))
+		switch c.Kind {
+		case "curry":
+			call = "deriveCurry(F)"
+		case "flip":
+			call = "deriveFlip(F)"
+		case "apply":
+			call = "deriveApply(F, []" + c.Variadic + "(nil))"
+		}
+	}
+	fmt.Fprintf(&sb, "\n// Run is never reached on a tree that refuses variadic signatures.\nfunc Run(op string, in map[string][]int) string {\n\t_ = %s\n\treturn \"variadic\"\n}\n", call)
+	return sb.String()
+}
+
+func (c *Class) source() string {
 	var sb strings.Builder
 	w := func(f string, a ...interface{}) { fmt.Fprintf(&sb, f, a...) }
 	w("package %s\n\n", c.Pkg)
@@ -322,7 +440,7 @@ func (c *Class) Source() string {
 		w("var F func(%s)%s = fImpl\n\n", goParams(c.Ps), goResults(c.Rs, ""))
 		w("func fImpl(%s)%s {\n\ta := %s\n\tlogArgs(a)\n", implParams(ts, 0), goResults(c.Rs, ""), obsList(ts, 0))
 		if len(c.Rs) > 0 {
-			w("\treturn %s\n", strings.Join(mkResults(c.Rs, fTag), ", "))
+			w("\treturn %s\n", strings.Join(mkResults(c.Rs, c.tag(fTag)), ", "))
 		}
 		w("}\n")
 		args := mkArgs(ts, 0)
@@ -357,7 +475,7 @@ func (c *Class) Source() string {
 		w("func fcImpl(%s) func(%s)%s {\n\tlogArgs(%s)\n", implParams(ot, 0), goParams(unnamed(it)), goResults(c.Rs, ""), obsList(ot, 0))
 		w("\treturn func(%s)%s {\n\t\ta := %s\n\t\tlogArgs(a)\n", implParams(it, len(ot)), goResults(c.Rs, ""), obsList(append(append([]int{}, ot...), it...), 0))
 		if len(c.Rs) > 0 {
-			w("\t\treturn %s\n", strings.Join(mkResults(c.Rs, fTag), ", "))
+			w("\t\treturn %s\n", strings.Join(mkResults(c.Rs, c.tag(fTag)), ", "))
 		}
 		w("\t}\n}\n")
 		args := mkArgs(append(append([]int{}, ot...), it...), 0)
@@ -380,7 +498,7 @@ func (c *Class) Source() string {
 				et = c.errGo("result")
 			}
 			w("func F%d(%s)%s {\n\ta := %s\n\tlogStage(%d, a)\n\treturn %s\n}\n\n", i, implParams(in, 0), goResults(outs, et),
-				obsList(in, 0), i, strings.Join(append(mkResults(outs, fmt.Sprint(i)), c.errRet(i, i == 0)), ", "))
+				obsList(in, 0), i, strings.Join(append(mkResults(outs, c.stageTag(i)), c.errRet(i, i == 0)), ", "))
 			in = outs
 		}
 		last := c.Stages[len(c.Stages)-1]
@@ -435,7 +553,7 @@ func (c *Class) Source() string {
 		ts := ptys(c.Ps)
 		w("var F func(%s)%s = fImpl\n\n", goParams(c.Ps), goResults(c.Rs, "bool"))
 		w("func fImpl(%s)%s {\n\ta := %s\n\tlogStage(0, a)\n\treturn %s\n}\n", implParams(ts, 0), goResults(c.Rs, "bool"), obsList(ts, 0),
-			strings.Join(append(mkResults(c.Rs, "0"), "Ok"), ", "))
+			strings.Join(append(mkResults(c.Rs, c.tag("0")), "Ok"), ", "))
 		runFn("\tOk = in[\"ok\"][0] != 0\n"+c.errArg("err")+"\tw := deriveToError(e, F)\n", append(rvars(len(c.Rs)), "err"),
 			fmt.Sprintf("w(%s)", strings.Join(mkArgs(ts, 0), ", ")), "outcomeE("+obsVars(c.Rs)+", err)")
 	default:
@@ -476,6 +594,17 @@ func (c *Class) Ops(rng *rand.Rand, cfg string, nargs int) []string {
 	head := fmt.Sprintf("%s %s %s %s", c.Kind, c.Pkg, cfg, c.SigWire())
 	var out []string
 	add := func(parts ...string) { out = append(out, head+" "+strings.Join(parts, " ")) }
+	if c.Variadic != "" {
+		return nil
+	}
+	if c.Twin {
+		d := *c
+		d.Twin = false
+		for _, l := range d.Ops(rng, cfg, nargs) {
+			out = append(out, l+" (site 1)", l+" (site 2)")
+		}
+		return out
+	}
 	if c.ErrTy != "" {
 		// behaviour only where a custom error VALUE is handed over (the other classes are about accept /
 		// refuse / compile): it cannot be made to fail on demand, and a struct error has no "no error"
